@@ -35,6 +35,7 @@ int main(void) {
     printf("NEWCAP %lld %lld %lld\n", (long long)dyn_array_capacity(dyn_array_new_with_capacity(ELEM_INT, 0)),
            (long long)dyn_array_capacity(dyn_array_new_with_capacity(ELEM_INT, c0 + 1)),
            (long long)dyn_array_capacity(dyn_array_new_with_capacity(ELEM_INT, -5)));
+    printf("ESZ %u\n", (unsigned)sizeof(((DynArray *)0)->elem_size));
     printf("GCHDR %u %u\n", (unsigned)sizeof(GCHeader), (unsigned)sizeof(((GCHeader *)0)->ref_count));
     generate_math_utility_builtins(NULL);
     const char *start = strstr(acc, "static DynArray* nl_array_slice(");
